@@ -62,16 +62,36 @@ class RunFn:
         # local bound to Result(...)
         self.result_vars = set()
         self.result_ctor_stmts = []
+        self.ctor_call: dict[int, ast.Call] = {}  # id(ctor stmt) -> the Result(...) call that builds the value
         for n in walk_own(fn.node):
             if isinstance(n, ast.Assign) and isinstance(n.value, ast.Call):
                 names = A.callee_names(n.value, fn)
+                ctor = None
                 if RESULT_CLS in names:
+                    ctor = n.value
+                else:
+                    # a helper whose every return is Result(...): the placeholder result built in one place
+                    for h in [t for t in A.rs.resolve_call(n.value, fn).repo_targets if isinstance(t, FuncInfo)]:
+                        rets = [r for r in walk_own(h.node) if isinstance(r, ast.Return)]
+                        if rets and all(isinstance(r.value, ast.Call) and RESULT_CLS in A.callee_names(r.value, h) for r in rets):
+                            ctor = rets[0].value
+                if ctor is not None:
                     for t in n.targets:
                         if isinstance(t, ast.Name):
                             self.result_vars.add(t.id)
                             self.result_ctor_stmts.append(n)
+                            self.ctor_call[id(n)] = ctor
         self.save_calls = [c for c in calls if SAVE_FN in A.callee_names(c, fn) and kwarg(c, "result") is not None]
-        self.record_calls = [c for c in calls if RECORD_ERROR_FN in A.callee_names(c, fn)]
+
+        def _reaches_record_error(c: ast.Call) -> bool:
+            if RECORD_ERROR_FN in A.callee_names(c, fn):
+                return True
+            for h in [t for t in A.rs.resolve_call(c, fn).repo_targets if isinstance(t, FuncInfo)]:
+                if any(RECORD_ERROR_FN in A.callee_names(k, h) for k in A.calls(h)):
+                    return True
+            return False
+
+        self.record_calls = [c for c in calls if _reaches_record_error(c)]
         self.result_calls = [c for c in calls if any(q.endswith("Job.result") for q in A.callee_names(c, fn))]
         self.populate_calls = [c for c in calls if any(q.endswith("._populate_filesystem") for q in A.callee_names(c, fn))]
 
@@ -506,7 +526,7 @@ def result_typestate(A: Analysis, col: Collector, R: RunFn, rule: str):
     var = sorted(R.result_vars)[0]
     n_inst = 0
     for ctor in R.result_ctor_stmts:
-        call: ast.Call = ctor.value
+        call: ast.Call = R.ctor_call.get(id(ctor), ctor.value)
         e0 = _const_bool(kwarg(call, "errored"))
         if kwarg(call, "errored") is None:
             e0 = False  # attrs default of Result.errored
